@@ -230,6 +230,9 @@ class Dataset(collection.Collection):
             copy_other_on_error=copy_other_on_error,
         )
 
+        # The result has one observation for each pair of rows, also if no field could be subtracted
+        result._num_obs = num_obs
+
         # Overwrite field index_by difference with original value
         if index_by is not None:
             _index_by = index_by.split(",")
